@@ -200,7 +200,7 @@ func sortInts(l []int) {
 }
 
 func genEpochLong(r *vh.Rng) Case {
-	d := 2 + r.Intn(11)
+	d := 2 + r.Intn(8)
 	if r.Chance(1, 2) {
 		d = 2 + r.Intn(3)
 	}
